@@ -115,6 +115,40 @@ class Summaries:
                 return k
         return fn.path
 
+    # ------------------------------------------------------------------ forwarding wrappers
+    def forward_target(self, key):
+        """instance key K' when instance `key` does nothing but call K' with its own parameters in order and return
+        the result (a provided trait method such as Rate::encoder forwarding to Self::RateEncoder::new); else None"""
+        inst = self.inst(key)
+        fn = inst.fn
+        if fn is None:
+            return None
+        b = fn.body
+        calls = [(bb, t) for bb, t in b.calls()]
+        if len(calls) != 1:
+            return None
+        bb, t = calls[0]
+        if [b.canon_op(a) for a in t['args']] != [('param', n) for n in fn.param_names()]:
+            return None
+        if not (t['dest']['l'] == 0 and not t['dest']['p']):
+            return None
+        for blk in b.blocks:
+            if blk['cleanup']:
+                continue
+            for st in blk['stmts']:
+                if st['k'] == 'assign' and st['lhs']['p'] and st['lhs']['p'][0] == '*':
+                    return None
+        c = inst.callee(bb)
+        return c.get('key') or c.get('path')
+
+    def through_forwarders(self, key, hops=3):
+        for _ in range(hops):
+            nxt = self.forward_target(key) if key else None
+            if not nxt:
+                break
+            key = nxt
+        return key
+
     # ------------------------------------------------------------------ derived &mut locals
     def derived_locals(self, body, roots, seeds=None):
         """locals holding a (re)borrow / projection pointer derived from *root for root in roots
